@@ -5,7 +5,7 @@ from __future__ import annotations
 import ast
 
 from .repo import AnalysisError, FuncInfo
-from .terms import (ModelFn, App, Atom, Attr, BoundMethod, BuiltinRef, ClassRef, Closure, Comp, Elem, EnumVal, FStr, FuncRef,
+from .terms import (NTuple, Partial, ModelFn, App, Atom, Attr, BoundMethod, BuiltinRef, ClassRef, Closure, Comp, Elem, EnumVal, FStr, FuncRef,
                     ModRef, Mut, Obj, Op, Opaque, Star, Sub, Sym, Term, contains_term, vkey)
 
 MUTATORS = {"append", "extend", "insert", "pop", "remove", "clear", "add", "discard", "update", "setdefault",
@@ -269,6 +269,8 @@ class CallMixin:
             return self.call_builtin(fv.name, args, kwargs, node, fr)
         if isinstance(fv, ModelFn):
             return fv.fn(self, args, kwargs, node, fr)
+        if isinstance(fv, Partial):
+            return self.call_value(fv.fn, None, list(fv.args) + list(args), {**fv.kwargs, **kwargs}, node, fr)
         if qual == "typing.cast" and len(args) == 2:
             return args[1]
         if qual in ("dataclasses.replace", "copy.copy") and args and isinstance(args[0], Obj) and (qual == "copy.copy" or args[0].cls in self.repo.classes):
@@ -293,6 +295,8 @@ class CallMixin:
                 from .stmts import _ConcreteIter
 
                 return _ConcreteIter(out)
+        if qual == "functools.partial" and args:
+            return Partial(args[0], args[1:], kwargs)
         if qual == "collections.defaultdict" and len(args) <= 1 and not kwargs:
             from collections import defaultdict
 
@@ -338,6 +342,9 @@ class CallMixin:
                     return True
             elif fi.qual in inl:
                 return True
+        from .repo import KNOWN_FUNCS
+        if KNOWN_FUNCS and fi.qual not in KNOWN_FUNCS and not (fi.name.startswith("__") and fi.name.endswith("__") and fi.name != "__call__"):
+            return True  # a helper introduced after the rule tables were written (extract-function refactoring): transparent
         if self.opts.inline_private and fi.name.startswith("_") and not fi.name.startswith("__init") and not (
                 fi.name.startswith("__") and fi.name.endswith("__")) and fi.module.name == self.opts.root_module and not fi.is_generator:
             return True
@@ -417,6 +424,17 @@ class CallMixin:
             )
             if repo.is_enum(qual):
                 return App(qual, args, kwargs, fname=qual)
+            if any(b.split(".")[-1] == "NamedTuple" for b in repo.class_mro(qual)[1:]) and not any(isinstance(x, Star) for x in args):
+                names = [st.target.id for st in ci.node.body if isinstance(st, ast.AnnAssign) and isinstance(st.target, ast.Name)]
+                vals = list(args) + [None] * (len(names) - len(args))
+                for k, v in kwargs.items():
+                    if k in names:
+                        vals[names.index(k)] = v
+                for i, n_ in enumerate(names):
+                    if i >= len(args) and n_ not in kwargs and n_ in ci.class_attrs:
+                        dv = self.const_value(ci.module, ci.class_attrs[n_])
+                        vals[i] = dv if dv is not NotImplemented else None
+                return NTuple(vals, names, qual)
             if is_dc and not any(isinstance(x, Star) for x in args):
                 names = []
                 for q in reversed(repo.class_mro(qual)):
@@ -435,6 +453,16 @@ class CallMixin:
                     if c2:
                         for n, ve in c2.class_attrs.items():
                             if n in names and n not in fields:
+                                if isinstance(ve, ast.Call) and ast.unparse(ve.func).split(".")[-1] in ("field", "Field"):
+                                    kw = {k.arg: k.value for k in ve.keywords}
+                                    if "default_factory" in kw:
+                                        fac = self.eval(kw["default_factory"], fr)
+                                        fields[n] = self.call_value(fac, None, [], {}, node, fr)
+                                        continue
+                                    if "default" in kw:
+                                        ve = kw["default"]
+                                    elif ve.args:
+                                        ve = ve.args[0]
                                 v = self.const_value(c2.module, ve)
                                 fields[n] = v if v is not NotImplemented else Sym(f"{qual}.{n}")
             if not is_dc and not repo.find_method(qual, "__init__"):
@@ -442,7 +470,9 @@ class CallMixin:
             frozen = any("frozen=True" in d.replace(" ", "") or d in ("element", "message") for d in decos)
             o = Obj(qual, fields, args, kwargs, frozen=frozen and is_dc)
             init = repo.find_method(qual, "__init__") if not is_dc else None
-            if init is not None and self.should_inline(init, fr) and not any(isinstance(x, Star) for x in args):
+            from .repo import KNOWN_CLASSES
+            new_cls = bool(KNOWN_CLASSES) and qual not in KNOWN_CLASSES
+            if init is not None and (new_cls or self.should_inline(init, fr)) and not any(isinstance(x, Star) for x in args):
                 self.call_function(init, args, kwargs, node, fr, self_value=o)
             return o
         return Obj(qual, {}, args, kwargs)
@@ -611,6 +641,8 @@ class CallMixin:
 
         flat(spec)
         cs = set(classes)
+        if "builtins.object" in cs:
+            return True
         if isinstance(v, Obj):
             return any(c in repo.class_mro(v.cls) or self.exc_isinstance(v.cls, c) for c in cs)
         if isinstance(v, Atom) and v.cls:
